@@ -336,6 +336,19 @@ def unmodelled_calls(R, name, rng, info=None):
     if name == "as_class":
         for c in CLASSES:
             add("as_" + c, lambda c=c: as_class(nap, x, c))
+        # the public constructors WITHOUT a support (default support = [first, last]) in the three time units (seed C04-6: the default support built
+        # in the caller's unit) and from the other accepted forms of t (a TsIndex, a list, a pandas Series with the times as index)
+        tx = np.asarray(x.t)
+        dx = np.arange(len(tx), dtype=float) + 1
+        if len(tx) and tx[0] == tx[-1]:
+            return out          # a series built from one instant has no positive duration: outside C04's hypothesis on starting objects (zero-span quirk, DESIGN 10.4)
+        for u, f in (("s", 1.0), ("ms", 1e3), ("us", 1e6)):
+            add("ctor_default_support_Ts_" + u, lambda u=u, f=f: nap.Ts(tx * f, time_units=u))
+            add("ctor_default_support_Tsd_" + u, lambda u=u, f=f: nap.Tsd(tx * f, dx, time_units=u))
+        add("ctor_default_support_TsdFrame_ms", lambda: nap.TsdFrame(tx * 1e3, np.stack([dx, dx * 2], 1), time_units="ms"))
+        add("ctor_default_support_TsdTensor_us", lambda: nap.TsdTensor(tx * 1e6, np.stack([dx, dx * 2], 1).reshape(len(tx), 2, 1), time_units="us"))
+        add("ctor_from_TsIndex", lambda: nap.Tsd(x.index, dx, time_support=x.time_support))
+        add("ctor_from_list", lambda: nap.Ts([float(v) for v in tx]))
         return out
     if name == "core_any_class":
         # the modelled operations, on all four classes and on degenerate inputs
